@@ -8,6 +8,8 @@ R10.extract extractQuat(q.toMatrix44()) is parallel to q and unit, on every bran
 R10.pivot   extractQuat, negative-trace branch: the pivot component is that of a largest diagonal entry (D-ord)
 R10.setrot  setRotation(from, to) is a unit quaternion carrying from/|from| onto to/|to| on the <= 90, > 90 and
             exactly-opposite paths; rotationMatrix(from,to) = setRotation(from,to).toMatrix44()
+R10.squad   intermediate / squad / spline have the value graph of their documented definitions (Watt & Watt p.366) written with
+            Imath's own inverse, product, log, exp, slerp (opaque callees): argument order and the 2t(1-t) blend included
 R10.slerp   slerpShortestArc negates q2 exactly when q1.q2 < 0; slerp(t=0) = normalized(q1), slerp(t=1) = normalized(q2)
 """
 from fractions import Fraction
@@ -47,13 +49,54 @@ def gen_opaque(t):
     tu.add('w_ssa', '%s& o, const %s& p, const %s& q, const %s& tt' % (Q, Q, Q, E), 'o = slerpShortestArc(p, q, tt);')
     return tu
 
+def gen_squad(t):
+    """spline family against its documented definition (Watt & Watt p.366 / Shoemake), written with Imath's own
+    building blocks: a_i = q_i * exp(-(log(q_i^-1 q_{i-1}) + log(q_i^-1 q_{i+1}))/4), normalised;
+    squad = slerp(slerp(q1,q2,t), slerp(qa,qb,t), 2t(1-t));  spline = squad(q1, a_1, a_2, q2, t).
+    slerp, log and exp are opaque callees (same callee, same arguments => same value)"""
+    E = ELEM[t][0]
+    Q = 'Quat<%s>' % E
+    tu = TU('c10s_' + t, opaque=('5slerpI', 'E3logEv', 'E3expEv'))
+    a = tu.add
+    a('w_intermediate', '%s& o, const %s& q0, const %s& q1, const %s& q2' % (Q, Q, Q, Q), 'o = intermediate(q0, q1, q2);')
+    a('ref_intermediate', '%s& o, const %s& q0, const %s& q1, const %s& q2' % (Q, Q, Q, Q),
+      '%s inv = q1.inverse(); %s e = ((%s)(-0.25) * ((inv * q0).log() + (inv * q2).log())).exp(); o = q1 * e; o.normalize();' % (Q, Q, E))
+    a('w_squad', '%s& o, const %s& q1, const %s& qa, const %s& qb, const %s& q2, const %s& tt' % (Q, Q, Q, Q, Q, E), 'o = squad(q1, qa, qb, q2, tt);')
+    a('ref_squad', '%s& o, const %s& q1, const %s& qa, const %s& qb, const %s& q2, const %s& tt' % (Q, Q, Q, Q, Q, E),
+      'o = slerp(slerp(q1, q2, tt), slerp(qa, qb, tt), 2 * tt * (1 - tt));')
+    return tu
+
+def gen_spline(t):
+    E = ELEM[t][0]
+    Q = 'Quat<%s>' % E
+    tu = TU('c10p_' + t, opaque=('5squadI', '12intermediateI'))
+    a = tu.add
+    a('w_spline', '%s& o, const %s& q0, const %s& q1, const %s& q2, const %s& q3, const %s& tt' % (Q, Q, Q, Q, Q, E), 'o = spline(q0, q1, q2, q3, tt);')
+    a('ref_spline', '%s& o, const %s& q0, const %s& q1, const %s& q2, const %s& q3, const %s& tt' % (Q, Q, Q, Q, Q, E),
+      'o = squad(q1, intermediate(q0, q1, q2), intermediate(q1, q2, q3), q2, tt);')
+    return tu
+
 def tiny(c):
     return c.op == 'fcmp' and c.attr == 'olt' and c.args[1].op == 'const' and 0 < T.const_value(c.args[1]) < Fraction(1, 10 ** 30)
 
 def main(rep, ws, tier):
     types = 'f' if tier == 'quick' else 'fd'
     tus = [gen(t) for t in types]; tuo = [gen_opaque(t) for t in types]
-    an = Analysed(ws, tus + tuo, rep)
+    tuq = [gen_squad(t) for t in types]; tup = [gen_spline(t) for t in types]
+    an = Analysed(ws, tus + tuo + tuq + tup, rep)
+    for tq, tp, t in zip(tuq, tup, types):
+        E, sz, lt = ELEM[t]
+        for RR, fn in ((an[tq], 'intermediate'), (an[tq], 'squad'), (an[tp], 'spline')):
+            oid = '%s<%s>' % (fn, E)
+            A, Bf = RR.get('w_' + fn), RR.get('ref_' + fn)
+            if A is None or Bf is None:
+                rep.ob(oid, 'R10.squad', UNDECIDED, RR.err.get('w_' + fn, RR.err.get('ref_' + fn, 'not analysed'))); continue
+            oa = [A.out('a0', i * sz, sz, lt) for i in range(4)]; obb = [Bf.out('a0', i * sz, sz, lt) for i in range(4)]
+            diff = [i for i in range(4) if oa[i] is not obb[i] and not T.equiv(oa[i], obb[i], 200000)]
+            from .common import explain_diff
+            rep.ob(oid, 'R10.squad', VIOLATED if diff else HOLDS,
+                   'component %d differs from the documented definition: %s' % (diff[0], explain_diff(oa[diff[0]], obb[diff[0]])[:300]) if diff else
+                   'identical value graph to the documented definition written with the same building blocks', fn_where(A.fn))
     for tu, to, t in zip(tus, tuo, types):
         R = an[tu]; E, sz, lt = ELEM[t]
         def atom(ctx, node): return (ctx.reduce(P.patom(ctx.key(node))), ONE)
